@@ -76,8 +76,8 @@ StepBroken(p, nw) ==
 UpdateBroken(p, j) ==
   IF ~(PairsUnique(j.ids) /\ PairsUnique(j.rem)) THEN {"C18:IdsMalformed"}
   ELSE LET nw == RecOf(j) IN
-       RecordBroken(nw) \cup If(RemIdsOK(j), "RemovalNamesWrongReplicaId")
-       \cup (IF RecordBroken(nw) = {} THEN StepBroken(p, nw) ELSE {})
+       WriteBroken(metas[p], nw) \cup If(RemIdsOK(j), "RemovalNamesWrongReplicaId")
+       \cup (IF WriteBroken(metas[p], nw) = {} THEN StepBroken(p, nw) ELSE {})
 
 \* the previous layout handed to the placement function: the in-sync list of every partition,
 \* no node twice in a list
